@@ -110,7 +110,7 @@ Definition follow_ok (p : pvalue) (rest : str) : Prop :=
   | _ => True
   end.
 
-Definition after (fuel : nat) (st : list sitem) (u : unwind_res) : outcome jvalue jerr :=
+Definition after (fuel : nat) (u : unwind_res) : outcome jvalue jerr :=
   match u with
   | UDone r => r
   | UCont lx2 st2 => parse_loop fuel lx2 st2
@@ -120,7 +120,7 @@ Lemma parse_loop_step fuel lx st sv : start_value lx = Ok sv ->
   parse_loop (S fuel) lx st =
   match sv with
   | SVPush it lx1 => parse_loop fuel lx1 (it :: st)
-  | SVValue v lx1 => after fuel st (unwind lx1 st v)
+  | SVValue v lx1 => after fuel (unwind lx1 st v)
   end.
 Proof. intros H. cbn [parse_loop]. rewrite H. cbn [obind]. destruct sv; [|reflexivity]. unfold after. reflexivity. Qed.
 
@@ -265,4 +265,348 @@ Proof.
   { rewrite A6. cbn [length]. apply N.eqb_neq. lia. }
   rewrite Hlen. unfold nacc_value. rewrite A1, A2, A3, A4, A5. change (Z.of_N 0 - Z.of_N 0)%Z with 0%Z.
   rewrite Hf. cbn [obind]. unfold advance. cbn [lx_line lx_col]. rewrite A6. reflexivity.
+Qed.
+
+(* ---- containers ----------------------------------------------------------------------------- *)
+
+Lemma eat_char_hit c lx r : lx_rem lx = c :: r -> eat_char c lx = Some (advance lx 1 r).
+Proof. intros H. unfold eat_char. rewrite H, N.eqb_refl. reflexivity. Qed.
+Lemma eat_char_miss c lx d r : lx_rem lx = d :: r -> d <> c -> eat_char c lx = None.
+Proof. intros H Hd. unfold eat_char. rewrite H. replace (d =? c) with false by (symmetry; now apply N.eqb_neq). reflexivity. Qed.
+
+Lemma skip_spaces_nonws lx c r : lx_rem lx = c :: r -> is_ws c = false -> skip_spaces lx = lx.
+Proof.
+  intros H Hw. unfold skip_spaces. rewrite H, (skip_ws_nonws c r _ _ Hw). destruct lx as [l k s]. cbn in *. now subst.
+Qed.
+
+Lemma skip_mk line col c r : is_ws c = false ->
+  skip_spaces {| lx_line := line; lx_col := col; lx_rem := c :: r |} = {| lx_line := line; lx_col := col; lx_rem := c :: r |}.
+Proof. intros H. unfold skip_spaces. cbn [lx_line lx_col lx_rem]. apply skip_ws_nonws, H. Qed.
+Lemma eat_miss_mk x line col c r : c <> x ->
+  eat_char x {| lx_line := line; lx_col := col; lx_rem := c :: r |} = None.
+Proof. intros H. unfold eat_char. cbn [lx_rem]. replace (c =? x) with false by (symmetry; now apply N.eqb_neq). reflexivity. Qed.
+Lemma eat_hit_mk line col c r :
+  eat_char c {| lx_line := line; lx_col := col; lx_rem := c :: r |} = Some {| lx_line := line; lx_col := col + 1; lx_rem := r |}.
+Proof. unfold eat_char. cbn [lx_rem]. rewrite N.eqb_refl. reflexivity. Qed.
+
+(* the first character of a printed value *)
+Definition head_ok (c : N) : Prop :=
+  is_ws c = false /\ c <> 93 /\ c <> 125 /\ c <> 44 /\ c <> 58.
+
+Lemma print_head p : wf p -> exists c r, print p = c :: r /\ head_ok c.
+Proof.
+  unfold head_ok. destruct p as [|[|]|ds|s|l|fs]; intros Hw.
+  - exists 110, [117; 108; 108]. repeat split; try reflexivity; discriminate.
+  - exists 116, [114; 117; 101]. repeat split; try reflexivity; discriminate.
+  - exists 102, [97; 108; 115; 101]. repeat split; try reflexivity; discriminate.
+  - destruct Hw as [Hd _]. destruct (digits_head ds Hd) as [d [r [-> Hdig]]]. exists d, r.
+    unfold is_digit in Hdig. apply andb_prop in Hdig. destruct Hdig as [H1 H2].
+    apply N.leb_le in H1, H2. split; [reflexivity|].
+    unfold is_ws. repeat split; try lia.
+    repeat (apply orb_false_intro); apply N.eqb_neq; lia.
+  - exists 34, (flat_map print_char s ++ [34]). repeat split; try reflexivity; discriminate.
+  - exists 91. destruct l as [|x r]; eexists; (split; [reflexivity|]); repeat split; try reflexivity; discriminate.
+  - exists 123. destruct fs as [|[k x] r]; eexists; (split; [reflexivity|]); repeat split; try reflexivity; discriminate.
+Qed.
+
+Lemma start_arr_open line col c t : is_ws c = false -> c <> 93 ->
+  start_value (mk line col (91 :: c :: t)) = Ok (SVPush (SArr []) (mk line (col + 1) (c :: t))).
+Proof.
+  intros Hw H93. unfold start_value, eat_str, lex_number, lex_string, mk. cbn [lx_rem strip_prefix N.eqb Pos.eqb].
+  cbn [lex_num nstep N.eqb Pos.eqb is_digit19 N.leb N.compare Pos.compare Pos.compare_cont andb na_len nacc0 obind eat_char lx_rem].
+  unfold advance. cbn [lx_line lx_col lx_rem].
+  rewrite (skip_mk _ _ c t Hw).
+  rewrite (eat_miss_mk 93 _ _ c t H93). reflexivity.
+Qed.
+
+Lemma lex_key_printed line col k c t : is_ws c = false -> exists col',
+  lex_key (mk line col (print_string k ++ 58 :: c :: t)) = Ok (k, mk line col' (c :: t)).
+Proof.
+  intros Hw. destruct (lex_string_print_string k (58 :: c :: t) line col) as [col1 E].
+  exists (col1 + 1). unfold lex_key, mk. rewrite E. cbn [obind].
+  rewrite (skip_mk _ _ 58 (c :: t) eq_refl).
+  rewrite eat_hit_mk.
+  rewrite (skip_mk _ _ c t Hw). reflexivity.
+Qed.
+
+Lemma start_obj_open line col k c t : is_ws c = false -> exists col',
+  start_value (mk line col (123 :: print_string k ++ 58 :: c :: t)) = Ok (SVPush (SObj [] k) (mk line col' (c :: t))).
+Proof.
+  intros Hw. destruct (lex_key_printed line (col + 1) k c t Hw) as [col' E]. exists col'.
+  unfold start_value, eat_str, lex_number, lex_string, mk. cbn [lx_rem strip_prefix N.eqb Pos.eqb].
+  cbn [lex_num nstep N.eqb Pos.eqb is_digit19 N.leb N.compare Pos.compare Pos.compare_cont andb na_len nacc0 obind eat_char lx_rem].
+  unfold advance. cbn [lx_line lx_col lx_rem].
+  assert (Eq : print_string k ++ 58 :: c :: t = 34 :: (flat_map print_char k ++ [34]) ++ 58 :: c :: t) by reflexivity.
+  unfold mk in E. rewrite Eq in *.
+  rewrite (skip_mk _ _ 34 _ eq_refl).
+  rewrite (eat_miss_mk 125 _ _ 34 _ ltac:(discriminate)).
+  rewrite E. reflexivity.
+Qed.
+
+Definition cost_list (l : list pvalue) : nat := fold_right (fun x n => (cost x + n)%nat) O l.
+Definition cost_fields (fs : list (str * pvalue)) : nat := fold_right (fun kv n => (cost (snd kv) + n)%nat) O fs.
+
+Fixpoint size (p : pvalue) : nat :=
+  match p with
+  | PArr l => S (fold_right (fun x n => (size x + n)%nat) O l)
+  | PObj fs => S (fold_right (fun kv n => (size (snd kv) + n)%nat) O fs)
+  | _ => 1%nat
+  end.
+
+(* the statement proved for every printable value *)
+Definition roundtrip_at (p : pvalue) : Prop :=
+  forall f line col st rest, follow_ok p rest ->
+  exists lx', lx_rem lx' = drop_ws rest /\
+    parse_loop (cost p + f) (mk line col (print p ++ rest)) st = after f (unwind lx' st (embed p)).
+
+Lemma stops_sep c t : c = 93 \/ c = 125 \/ c = 44 -> stops (c :: t).
+Proof. intros [->|[->| ->]]; cbn; repeat split; discriminate. Qed.
+
+Lemma follow_sep p c t : c = 93 \/ c = 125 \/ c = 44 -> follow_ok p (c :: t).
+Proof. intros H. destruct p; try exact I. now apply stops_sep. Qed.
+
+Lemma arr_rest_head r rest : exists c t, arr_rest r ++ rest = c :: t /\ (c = 93 \/ c = 125 \/ c = 44).
+Proof. destruct r as [|y r']; cbn [arr_rest app]; eexists; eexists; (split; [reflexivity|]); auto. Qed.
+Lemma obj_rest_head r rest : exists c t, obj_rest r ++ rest = c :: t /\ (c = 93 \/ c = 125 \/ c = 44).
+Proof. destruct r as [|[k y] r']; cbn [obj_rest app]; eexists; eexists; (split; [reflexivity|]); auto. Qed.
+
+Lemma sep_nonws c : c = 93 \/ c = 125 \/ c = 44 -> is_ws c = false.
+Proof. intros [->|[->| ->]]; reflexivity. Qed.
+
+Lemma drop_ws_nonws c t : is_ws c = false -> drop_ws (c :: t) = c :: t.
+Proof. intros H. cbn [drop_ws]. now rewrite H. Qed.
+
+(* the remaining items of an array, sitting after one finished item *)
+Lemma arr_tail : forall r, Forall (fun y => wf y /\ roundtrip_at y) r ->
+  forall acc v f lx st rest, lx_rem lx = arr_rest r ++ rest ->
+  exists lx', lx_rem lx' = drop_ws rest /\
+    after (cost_list r + f) (unwind lx (SArr acc :: st) v) =
+    after f (unwind lx' st (JArr (rev acc ++ v :: map embed r))).
+Proof.
+  induction r as [|y r IH]; intros Hr acc v f lx st rest Hlx.
+  - cbn [arr_rest app] in Hlx. cbn [cost_list fold_right Nat.add map unwind].
+    rewrite (eat_char_hit 93 lx rest Hlx).
+    exists (skip_spaces (advance lx 1 rest)). split; [now rewrite skip_spaces_rem|].
+    cbn [rev]. reflexivity.
+  - inversion Hr as [|? ? [Hwy Hy] Hr']; subst.
+    cbn [arr_rest] in Hlx. rewrite <- app_comm_cons, <- app_assoc in Hlx.
+    destruct (print_head y Hwy) as [c [t [Ey [Hws _]]]].
+    cbn [unwind]. rewrite (eat_char_miss 93 lx 44 _ Hlx) by discriminate.
+    rewrite (eat_char_hit 44 lx _ Hlx).
+    assert (Esk : skip_spaces (advance lx 1 (print y ++ arr_rest r ++ rest)) =
+                  mk (lx_line lx) (lx_col lx + 1) (print y ++ (arr_rest r ++ rest))).
+    { rewrite (skip_spaces_nonws _ c (t ++ arr_rest r ++ rest)); [reflexivity| |exact Hws].
+      unfold advance. cbn [lx_rem]. now rewrite Ey. }
+    rewrite Esk. cbn [after cost_list fold_right]. fold (cost_list r).
+    destruct (arr_rest_head r rest) as [c2 [t2 [E2 Hc2]]].
+    rewrite <- Nat.add_assoc.
+    destruct (Hy (cost_list r + f)%nat (lx_line lx) (lx_col lx + 1) (SArr (v :: acc) :: st) (arr_rest r ++ rest))
+      as [lx1 [Hlx1 E1]]; [rewrite E2; now apply follow_sep|].
+    rewrite E1. rewrite E2, (drop_ws_nonws c2 t2 (sep_nonws c2 Hc2)), <- E2 in Hlx1.
+    destruct (IH Hr' (v :: acc) (embed y) f lx1 st rest Hlx1) as [lx' [Hlx' E']].
+    exists lx'. split; [exact Hlx'|]. rewrite E'. cbn [rev map]. rewrite <- app_assoc. reflexivity.
+Qed.
+
+Definition embed_field (kv : str * pvalue) : str * jvalue := (fst kv, embed (snd kv)).
+
+(* the remaining fields of an object, sitting after one finished field value *)
+Lemma obj_tail : forall r, Forall (fun kv => wf (snd kv) /\ roundtrip_at (snd kv)) r ->
+  forall fields key v f lx st rest, lx_rem lx = obj_rest r ++ rest ->
+  NoDup (map fst fields ++ key :: map fst r) ->
+  exists lx', lx_rem lx' = drop_ws rest /\
+    after (cost_fields r + f) (unwind lx (SObj fields key :: st) v) =
+    after f (unwind lx' st (JObj (rev fields ++ (key, v) :: map embed_field r))).
+Proof.
+  induction r as [|[k' y] r IH]; intros Hr fields key v f lx st rest Hlx Hnd.
+  - cbn [obj_rest app] in Hlx. cbn [cost_fields fold_right Nat.add map unwind].
+    assert (Hk : has_key key fields = false).
+    { destruct (has_key key fields) eqn:E; [|reflexivity]. apply has_key_in in E.
+      apply NoDup_remove_2 in Hnd. exfalso. apply Hnd. apply in_or_app. now left. }
+    rewrite Hk. rewrite (eat_char_hit 125 lx rest Hlx).
+    exists (skip_spaces (advance lx 1 rest)). split; [now rewrite skip_spaces_rem|]. cbn [rev]. reflexivity.
+  - inversion Hr as [|? ? [Hwy Hy] Hr']; subst. cbn [snd] in Hwy, Hy.
+    cbn [obj_rest] in Hlx. rewrite <- app_comm_cons in Hlx.
+    destruct (print_head y Hwy) as [c [t [Ey [Hws _]]]].
+    assert (Hk : has_key key fields = false).
+    { destruct (has_key key fields) eqn:E; [|reflexivity]. apply has_key_in in E.
+      apply NoDup_remove_2 in Hnd. exfalso. apply Hnd. apply in_or_app. now left. }
+    cbn [unwind]. rewrite Hk. rewrite (eat_char_miss 125 lx 44 _ Hlx) by discriminate.
+    rewrite (eat_char_hit 44 lx _ Hlx).
+    (* the key *)
+    assert (Erem : (print_string k' ++ 58 :: print y ++ obj_rest r) ++ rest =
+                   print_string k' ++ 58 :: c :: (t ++ obj_rest r ++ rest)).
+    { rewrite <- app_assoc. cbn [app]. rewrite Ey. rewrite <- app_assoc. reflexivity. }
+    rewrite Erem.
+    assert (Esk : skip_spaces (advance lx 1 (print_string k' ++ 58 :: c :: t ++ obj_rest r ++ rest)) =
+                  mk (lx_line lx) (lx_col lx + 1) (print_string k' ++ 58 :: c :: t ++ obj_rest r ++ rest)).
+    { unfold advance, mk. change (print_string k' ++ 58 :: c :: t ++ obj_rest r ++ rest)
+        with (34 :: (flat_map print_char k' ++ [34]) ++ 58 :: c :: t ++ obj_rest r ++ rest).
+      apply skip_mk. reflexivity. }
+    rewrite Esk.
+    destruct (lex_key_printed (lx_line lx) (lx_col lx + 1) k' c (t ++ obj_rest r ++ rest) Hws) as [col' Ek].
+    rewrite Ek. cbn [after cost_fields fold_right snd]. fold (cost_fields r).
+    destruct (obj_rest_head r rest) as [c2 [t2 [E2 Hc2]]].
+    rewrite <- Nat.add_assoc.
+    assert (Eprint : c :: t ++ obj_rest r ++ rest = print y ++ (obj_rest r ++ rest)) by (now rewrite Ey).
+    rewrite Eprint.
+    destruct (Hy (cost_fields r + f)%nat (lx_line lx) col' (SObj ((key, v) :: fields) k' :: st) (obj_rest r ++ rest))
+      as [lx1 [Hlx1 E1]]; [rewrite E2; now apply follow_sep|].
+    rewrite E1. rewrite E2, (drop_ws_nonws c2 t2 (sep_nonws c2 Hc2)), <- E2 in Hlx1.
+    destruct (IH Hr' ((key, v) :: fields) k' (embed y) f lx1 st rest Hlx1) as [lx' [Hlx' E']].
+    { cbn [map fst]. cbn [map fst] in Hnd.
+      apply (Permutation.Permutation_NoDup (l := map fst fields ++ key :: k' :: map fst r)); [|exact Hnd].
+      change (key :: map fst fields ++ k' :: map fst r) with ((key :: map fst fields) ++ k' :: map fst r).
+      etransitivity; [|apply Permutation.Permutation_app_tail; apply Permutation.Permutation_sym, Permutation.Permutation_cons_append].
+      rewrite <- app_assoc. cbn [app]. reflexivity. }
+    exists lx'. split; [exact Hlx'|]. rewrite E'. cbn [rev map]. rewrite <- app_assoc. reflexivity.
+Qed.
+
+(* ---- the induction --------------------------------------------------------------------------- *)
+
+Lemma wf_arr l : wf (PArr l) <-> Forall wf l.
+Proof.
+  cbn [wf]. induction l as [|x r IH]; split; intros H.
+  - constructor. - exact I.
+  - destruct H as [H1 H2]. constructor; [assumption|now apply IH].
+  - inversion H; subst. split; [assumption|now apply IH].
+Qed.
+
+Lemma wf_obj fs : wf (PObj fs) <-> NoDup (map fst fs) /\ Forall (fun kv => wf (snd kv)) fs.
+Proof.
+  cbn [wf]. split; intros [Hn H]; (split; [assumption|]); clear Hn.
+  - induction fs as [|[k x] r IH]; [constructor|]. destruct H as [H1 H2]. constructor; [assumption|now apply IH].
+  - induction fs as [|[k x] r IH]; [exact I|]. inversion H; subst. split; [assumption|now apply IH].
+Qed.
+
+Lemma start_arr_empty line col rest : exists col',
+  start_value (mk line col (91 :: 93 :: rest)) = Ok (SVValue (JArr []) (skip_spaces (mk line col' rest))).
+Proof. eexists. reflexivity. Qed.
+Lemma start_obj_empty line col rest : exists col',
+  start_value (mk line col (123 :: 125 :: rest)) = Ok (SVValue (JObj []) (skip_spaces (mk line col' rest))).
+Proof. eexists. reflexivity. Qed.
+
+Lemma size_pos p : (1 <= size p)%nat.
+Proof. destruct p; cbn; lia. Qed.
+
+Lemma arr_rest_length r : (cost_list r <= length (arr_rest r))%nat ->  True.
+Proof. trivial. Qed.
+
+Theorem roundtrip_all : forall n p, (size p <= n)%nat -> wf p ->
+  roundtrip_at p /\ (cost p <= length (print p))%nat.
+Proof.
+  induction n as [|n IH]; intros p Hs Hw; [pose proof (size_pos p); lia|].
+  destruct p as [|b|ds|s|l|fs].
+  - split; [|cbn; lia]. intros f line col st rest _. cbn [cost print Nat.add].
+    rewrite (parse_loop_step f _ st _ (start_null line col rest)).
+    eexists. split; [|reflexivity]. now rewrite skip_spaces_rem.
+  - split; [|destruct b; cbn; lia]. intros f line col st rest _. cbn [cost Nat.add]. destruct b; cbn [print embed].
+    + rewrite (parse_loop_step f _ st _ (start_true line col rest)).
+      eexists. split; [|reflexivity]. now rewrite skip_spaces_rem.
+    + rewrite (parse_loop_step f _ st _ (start_false line col rest)).
+      eexists. split; [|reflexivity]. now rewrite skip_spaces_rem.
+  - destruct Hw as [Hd Hf]. split.
+    + intros f line col st rest Hfo. cbn [cost print Nat.add embed].
+      rewrite (parse_loop_step f _ st _ (start_nat line col ds rest Hd Hfo Hf)).
+      eexists. split; [|reflexivity]. now rewrite skip_spaces_rem.
+    + destruct (digits_head ds Hd) as [d [r [-> _]]]. cbn. lia.
+  - split; [|cbn; lia]. intros f line col st rest _. cbn [cost print Nat.add embed].
+    destruct (start_string line col s rest) as [col' E].
+    rewrite (parse_loop_step f _ st _ E).
+    eexists. split; [|reflexivity]. now rewrite skip_spaces_rem.
+  - (* arrays *)
+    apply wf_arr in Hw. destruct l as [|x r].
+    { split; [|cbn; lia]. intros f line col st rest _. cbn [cost fold_right print Nat.add embed map app].
+      destruct (start_arr_empty line col rest) as [col' E].
+      rewrite (parse_loop_step f _ st _ E). eexists. split; [|reflexivity]. now rewrite skip_spaces_rem. }
+    inversion Hw as [|? ? Hwx Hwr]; subst.
+    cbn [size fold_right] in Hs.
+    destruct (IH x ltac:(lia) Hwx) as [Hx Cx].
+    assert (Hr : Forall (fun y => wf y /\ roundtrip_at y) r /\ (cost_list r < length (arr_rest r))%nat).
+    { clear Hx Cx Hwx Hw. revert Hs Hwr. generalize (size x). induction r as [|y r IHr]; intros sx Hs Hwr.
+      - split; [constructor|cbn; lia].
+      - inversion Hwr as [|? ? Hwy Hwr']; subst. cbn [fold_right] in Hs.
+        destruct (IH y ltac:(lia) Hwy) as [Hy Cy].
+        destruct (IHr (sx + size y)%nat ltac:(lia) Hwr') as [F C].
+        split; [constructor; [split; assumption|assumption]|].
+        cbn [cost_list fold_right arr_rest length]. rewrite app_length. fold (cost_list r). lia. }
+    destruct Hr as [Hr Cr]. split.
+    + intros f line col st rest _. rewrite print_arr_cons.
+      destruct (print_head x Hwx) as [c [t [Ex [Hws [H93 _]]]]].
+      cbn [cost fold_right]. fold (cost_list r). cbn [Nat.add].
+      assert (Erem : (91 :: print x ++ arr_rest r) ++ rest = 91 :: c :: (t ++ arr_rest r ++ rest)).
+      { cbn [app]. rewrite <- app_assoc, Ex. reflexivity. }
+      rewrite Erem. rewrite (parse_loop_step _ _ st _ (start_arr_open line col c _ Hws H93)).
+      assert (Eprint : c :: t ++ arr_rest r ++ rest = print x ++ (arr_rest r ++ rest)) by (now rewrite Ex).
+      rewrite Eprint. rewrite <- Nat.add_assoc.
+      destruct (arr_rest_head r rest) as [c2 [t2 [E2 Hc2]]].
+      destruct (Hx (cost_list r + f)%nat line (col + 1) (SArr [] :: st) (arr_rest r ++ rest)) as [lx1 [Hlx1 E1]];
+        [rewrite E2; now apply follow_sep|].
+      rewrite E1. rewrite E2, (drop_ws_nonws c2 t2 (sep_nonws c2 Hc2)), <- E2 in Hlx1.
+      destruct (arr_tail r Hr [] (embed x) f lx1 st rest Hlx1) as [lx' [Hlx' E']].
+      exists lx'. split; [exact Hlx'|]. rewrite E'. reflexivity.
+    + rewrite print_arr_cons. cbn [cost fold_right length]. fold (cost_list r). rewrite app_length. lia.
+  - (* objects *)
+    apply wf_obj in Hw. destruct Hw as [Hnd Hw]. destruct fs as [|[k x] r].
+    { split; [|cbn; lia]. intros f line col st rest _. cbn [cost fold_right print Nat.add embed map app].
+      destruct (start_obj_empty line col rest) as [col' E].
+      rewrite (parse_loop_step f _ st _ E). eexists. split; [|reflexivity]. now rewrite skip_spaces_rem. }
+    inversion Hw as [|? ? Hwx Hwr]; subst. cbn [snd] in Hwx.
+    cbn [size fold_right snd] in Hs.
+    destruct (IH x ltac:(lia) Hwx) as [Hx Cx].
+    assert (Hr : Forall (fun kv => wf (snd kv) /\ roundtrip_at (snd kv)) r /\ (cost_fields r < length (obj_rest r))%nat).
+    { clear Hx Cx Hwx Hnd Hw. revert Hs Hwr. generalize (size x). induction r as [|[k' y] r IHr]; intros sx Hs Hwr.
+      - split; [constructor|cbn; lia].
+      - inversion Hwr as [|? ? Hwy Hwr']; subst. cbn [snd] in Hwy. cbn [fold_right snd] in Hs.
+        destruct (IH y ltac:(lia) Hwy) as [Hy Cy].
+        destruct (IHr (sx + size y)%nat ltac:(lia) Hwr') as [F C].
+        split; [constructor; [split; assumption|assumption]|].
+        cbn [cost_fields fold_right obj_rest length snd]. rewrite !app_length. cbn [length]. rewrite app_length.
+        fold (cost_fields r). lia. }
+    destruct Hr as [Hr Cr]. split.
+    + intros f line col st rest _. rewrite print_obj_cons.
+      destruct (print_head x Hwx) as [c [t [Ex [Hws _]]]].
+      cbn [cost fold_right snd]. fold (cost_fields r). cbn [Nat.add].
+      assert (Erem : (123 :: print_string k ++ 58 :: print x ++ obj_rest r) ++ rest =
+                     123 :: print_string k ++ 58 :: c :: (t ++ obj_rest r ++ rest)).
+      { cbn [app]. rewrite <- app_assoc. cbn [app]. rewrite <- app_assoc, Ex. reflexivity. }
+      rewrite Erem. destruct (start_obj_open line col k c (t ++ obj_rest r ++ rest) Hws) as [col' Eo].
+      rewrite (parse_loop_step _ _ st _ Eo).
+      assert (Eprint : c :: t ++ obj_rest r ++ rest = print x ++ (obj_rest r ++ rest)) by (now rewrite Ex).
+      rewrite Eprint. rewrite <- Nat.add_assoc.
+      destruct (obj_rest_head r rest) as [c2 [t2 [E2 Hc2]]].
+      destruct (Hx (cost_fields r + f)%nat line col' (SObj [] k :: st) (obj_rest r ++ rest)) as [lx1 [Hlx1 E1]];
+        [rewrite E2; now apply follow_sep|].
+      rewrite E1. rewrite E2, (drop_ws_nonws c2 t2 (sep_nonws c2 Hc2)), <- E2 in Hlx1.
+      destruct (obj_tail r Hr [] k (embed x) f lx1 st rest Hlx1) as [lx' [Hlx' E']]; [exact Hnd|].
+      exists lx'. split; [exact Hlx'|]. rewrite E'. reflexivity.
+    + rewrite print_obj_cons. cbn [cost fold_right length snd]. fold (cost_fields r). rewrite !app_length. cbn [length].
+      rewrite app_length. lia.
+Qed.
+
+(* parse_json inverts the printer *)
+Theorem parse_print : forall p, wf p -> parse_json (print p) = Ok (embed p).
+Proof.
+  intros p Hw. destruct (roundtrip_all (size p) p (le_n _) Hw) as [Hr Hc].
+  destruct (print_head p Hw) as [c [t [Ep [Hws _]]]].
+  unfold parse_json. set (fuel := S (length (print p))).
+  assert (Esk : skip_spaces {| lx_line := 0; lx_col := 0; lx_rem := print p |} = mk 0 0 (print p ++ [])).
+  { rewrite app_nil_r, Ep. apply skip_mk, Hws. }
+  rewrite Esk. replace fuel with (cost p + (fuel - cost p))%nat by (unfold fuel; lia).
+  destruct (Hr (fuel - cost p)%nat 0 0 [] []) as [lx' [Hlx' E]]; [destruct p; exact I|].
+  rewrite E. cbn [drop_ws] in Hlx'. cbn [unwind]. rewrite Hlx'. reflexivity.
+Qed.
+
+(* and trailing data after a printed value is rejected *)
+Theorem parse_print_trailing : forall p c t, wf p -> is_ws c = false -> follow_ok p (c :: t) ->
+  exists line col, parse_json (print p ++ c :: t) = Err {| je_line := line; je_col := col; je_kind := EExpectedEof |}.
+Proof.
+  intros p c t Hw Hc Hfo. destruct (roundtrip_all (size p) p (le_n _) Hw) as [Hr Hcost].
+  destruct (print_head p Hw) as [c0 [t0 [Ep [Hws _]]]].
+  unfold parse_json. set (fuel := S (length (print p ++ c :: t))).
+  assert (Esk : skip_spaces {| lx_line := 0; lx_col := 0; lx_rem := print p ++ c :: t |} = mk 0 0 (print p ++ c :: t)).
+  { rewrite Ep. cbn [app]. apply skip_mk, Hws. }
+  rewrite Esk. replace fuel with (cost p + (fuel - cost p))%nat by (unfold fuel; rewrite app_length; lia).
+  destruct (Hr (fuel - cost p)%nat 0 0 [] (c :: t) Hfo) as [lx' [Hlx' E]].
+  rewrite E. rewrite (drop_ws_nonws c t Hc) in Hlx'. cbn [unwind]. rewrite Hlx'. cbn [after].
+  eexists. eexists. reflexivity.
 Qed.
